@@ -959,3 +959,237 @@ Proof.
     + split; [reflexivity|]. right; left. split; reflexivity.
     + split; [reflexivity|]. left. reflexivity.
 Qed.
+
+(** * 6. every error raised while a flag token is processed is a justified reaction error *)
+Definition reaction_error (c : cmd) (e : error) : Prop := exists a s raw st, react_cause c a s raw st e.
+
+Lemma react_err c idn s a raw ti st e st' : react c idn s a raw ti st = RErr e st' -> reaction_error c e.
+Proof.
+  unfold react. destruct (resolve_pending c st) as [s1|e1 s1|p1] eqn:Er; cbn [rbind].
+  - intros H. apply react_core_err_sound in H. exists a, s, raw, s1. exact H.
+  - intros H; injection H as <- _. apply resolve_pending_err_sound in Er. destruct Er as [p [a0 [_ [_ Hc]]]].
+    eexists _, _, _, _. exact Hc.
+  - discriminate.
+Qed.
+
+Lemma parse_opt_value_err c idn att a has_eq st e st' :
+  parse_opt_value c idn att a has_eq st = RErr e st' -> reaction_error c e.
+Proof.
+  unfold parse_opt_value. destruct (a_req_eq a && negb has_eq).
+  - destruct (a_num a) as [r|]; cbn [expect rbind]; [|discriminate]. destruct (vmin r =? 0); [|discriminate].
+    destruct (react c (Some idn) SCmdLine a [] None st) as [x|e1 s1|p1] eqn:Er; cbn [rbind]; try discriminate.
+    intros H; injection H as <- _. eapply react_err, Er.
+  - destruct att as [v|].
+    + destruct (react c (Some idn) SCmdLine a [v] None st) as [x|e1 s1|p1] eqn:Er; cbn [rbind]; try discriminate.
+      intros H; injection H as <- _. eapply react_err, Er.
+    + destruct (resolve_pending c st) as [s1|e1 s1|p1] eqn:Er; cbn [rbind].
+      * destruct (pending_values_push _ _ _ _ _); cbn [expect rbind]; discriminate.
+      * intros H; injection H as <- _. apply resolve_pending_err_sound in Er. destruct Er as [p [a0 [_ [_ Hc]]]].
+        eexists _, _, _, _. exact Hc.
+      * discriminate.
+Qed.
+
+Lemma state_arg_not_err c pst e st : state_arg c pst <> RErr e st.
+Proof. destruct pst; cbn [state_arg]; try discriminate; destruct (find_arg c i); cbn; discriminate. Qed.
+
+Lemma parse_long_arg_err c flag ok value pst pc vaf st e st' :
+  parse_long_arg c flag ok value pst pc vaf st = RErr e st' -> reaction_error c e.
+Proof.
+  unfold parse_long_arg. intros H.
+  destruct (state_arg c pst) as [sa|e0 s0|p0] eqn:Es; cbn [rbind] in H;
+    [|exfalso; eapply state_arg_not_err, Es|discriminate H].
+  destruct (match sa with Some a0 => a_hyphen a0 | None => false end); [discriminate H|].
+  destruct (negb ok); [discriminate H|].
+  destruct (is_nil flag && negb (is_some value)); [discriminate H|].
+  match type of H with
+  | match ?found with _ => _ end = _ => destruct found as [fa|]
+  end.
+  - destruct (a_takes_value fa).
+    + destruct (parse_opt_value c ILong value fa (is_some value) st) as [x|e1 s1|p1] eqn:Ep; cbn [rbind] in H;
+        try discriminate H. injection H as <- _. eapply parse_opt_value_err, Ep.
+    + destruct value; [discriminate H|].
+      destruct (react c (Some ILong) SCmdLine fa [] None st) as [x|e1 s1|p1] eqn:Er; cbn [rbind] in H;
+        try discriminate H. injection H as <- _. eapply react_err, Er.
+  - destruct (possible_long_flag_subcommand c flag); [discriminate H|].
+    destruct (match get_pos c pc with Some a0 => a_hyphen a0 && negb (a_last a0) | None => false end); discriminate H.
+Qed.
+
+Lemma short_loop_err c : forall fuel r ret vaf st e st',
+  short_loop c fuel r ret vaf st = RErr e st' -> reaction_error c e.
+Proof.
+  induction fuel as [|f IH]; intros r ret vaf st e st' H; cbn [short_loop] in H; [discriminate H|].
+  destruct (sf_next r) as [[[ch|rest] r']|]; try discriminate H.
+  destruct (get_short c ch) as [ga|].
+  - destruct (negb (a_takes_value ga)).
+    + destruct (react c (Some IShort) SCmdLine ga [] None st) as [x|e1 s1|p1] eqn:Er; cbn [rbind] in H.
+      * eapply IH, H. * injection H as <- _. eapply react_err, Er. * discriminate H.
+    + match type of H with
+      | (let '(_, _) := ?p in _) = _ => destruct p as [val has_eq]
+      end.
+      destruct (parse_opt_value c IShort val ga has_eq st) as [[s2 p2]|e1 s1|p1] eqn:Ep; cbn [rbind] in H.
+      * cbn [fst snd] in H. destruct p2; try discriminate H. eapply IH, H.
+      * injection H as <- _. eapply parse_opt_value_err, Ep.
+      * discriminate H.
+  - destruct (find_short_subcmd c ch); [|discriminate H].
+    destruct (resolve_pending c st) as [s1|e1 s1|p1] eqn:Er; cbn [rbind] in H; try discriminate H.
+    injection H as <- _. apply resolve_pending_err_sound in Er. destruct Er as [p [a0 [_ [_ Hc]]]].
+    eexists _, _, _, _. exact Hc.
+Qed.
+
+Lemma parse_short_arg_err c r pst pc vaf st e st' :
+  parse_short_arg c r pst pc vaf st = RErr e st' -> reaction_error c e.
+Proof.
+  unfold parse_short_arg. intros H.
+  destruct (state_arg c pst) as [sa|e0 s0|p0] eqn:Es; cbn [rbind] in H;
+    [|exfalso; eapply state_arg_not_err, Es|discriminate H].
+  repeat match type of H with (if ?b then _ else _) = _ => destruct b; [discriminate H|] end.
+  destruct (sf_advance_by _ r) as [r0|]; cbn [expect rbind] in H; [|discriminate H].
+  eapply short_loop_err, H.
+Qed.
+
+(** reaction errors are never "unknown token" errors, and each carries a kind of its cause *)
+Theorem reaction_error_kinds c e :
+  reaction_error c e ->
+  In (e_kind e) [EInvalidValue; EWrongNumberOfValues; ETooFewValues; ETooManyValues; EArgumentConflict;
+                 EInvalidUtf8; EValueValidation; EDisplayHelp; EDisplayVersion].
+Proof.
+  intros [a [s [raw [st H]]]]. destruct H as [_ [st' Hv]|Hk _ _ _ _|[vp [v [_ [Hv _]]]] _|Hk _|Hk _].
+  - apply verify_num_args_sound in Hv. destruct Hv as [r [_ [_ [_ [_ [Hin _]]]]]].
+    cbn in Hin. cbn. tauto.
+  - rewrite Hk. cbn. tauto.
+  - apply vp_parse_reject_sound in Hv. destruct Hv as [_ [Hin _]]. cbn in Hin. cbn. tauto.
+  - rewrite Hk. cbn. tauto.
+  - rewrite Hk. cbn. tauto.
+Qed.
+
+(** * 7. the token loop: an "unknown token" error names a token of the line that matches no key *)
+Definition unknown_kind (k : ekind) : Prop := k = EUnknownArgument \/ k = EInvalidSubcommand.
+
+Inductive unknown_cause (c : cmd) (tok : bytes) (e : error) : Prop :=
+| UCLong f ok v : to_long tok = Some (f, ok, v) -> e_arg e = f ->
+    (ok = false \/ (get_long c f = None /\ possible_long_flag_subcommand c f = None)) -> unknown_cause c tok e
+| UCShort r : to_short tok = Some r ->
+    ((exists ch, e_arg e = DASH :: encode_utf8 ch /\ get_short c ch = None /\ find_short_subcmd c ch = None)
+     \/ (exists r' rest, sf_next r' = Some (inr rest, []) /\ e_arg e = DASH :: rest)) -> unknown_cause c tok e
+| UCLast pc a : get_pos c pc = Some a -> a_last a = true -> e_arg e = tok -> unknown_cause c tok e
+| UCNoPos pc vaf tr : get_pos c pc = None -> is_set s_allow_external c = false ->
+    e = match_arg_error c tok vaf tr -> unknown_cause c tok e.
+
+Lemma parse_short_no_match_sound c r pst pc vaf st st1 a vaf1 :
+  parse_short_arg c r pst pc vaf st = ROk (st1, PRNoMatchingArg a, vaf1) ->
+  (exists ch, a = DASH :: encode_utf8 ch /\ get_short c ch = None /\ find_short_subcmd c ch = None)
+  \/ (exists r' rest, sf_next r' = Some (inr rest, []) /\ a = DASH :: rest).
+Proof.
+  unfold parse_short_arg. intros H.
+  destruct (state_arg c pst) as [sa|e0 s0|p0]; cbn [rbind] in H; try discriminate H.
+  repeat match type of H with (if ?b then _ else _) = _ => destruct b; [discriminate H|] end.
+  destruct (sf_advance_by _ r) as [r0|]; cbn [expect rbind] in H; [|discriminate H].
+  eapply short_loop_no_match_sound; [|exact H]. exact I.
+Qed.
+
+Lemma resolve_pending_ignore_not_err c st e st' : resolve_pending_ignore c st <> RErr e st'.
+Proof. unfold resolve_pending_ignore. destruct (resolve_pending c st); discriminate. Qed.
+
+Lemma reaction_not_unknown c e : reaction_error c e -> unknown_kind (e_kind e) -> False.
+Proof.
+  intros H [Hk|Hk]; apply reaction_error_kinds in H; rewrite Hk in H; cbn in H;
+    repeat (destruct H as [H|H]; [discriminate H|]); exact H.
+Qed.
+
+Lemma resolve_pending_err c st e st' : resolve_pending c st = RErr e st' -> reaction_error c e.
+Proof.
+  intros Er. apply resolve_pending_err_sound in Er. destruct Er as [p [a0 [_ [_ Hc]]]]. eexists _, _, _, _. exact Hc.
+Qed.
+
+Lemma is_new_arg_not_err c n a e st : is_new_arg c n a <> RErr e st.
+Proof.
+  unfold is_new_arg. destruct (find_arg c (a_id a)); cbn [expect rbind]; [|discriminate].
+  repeat match goal with |- (if ?b then _ else _) <> _ => destruct b end; discriminate.
+Qed.
+
+Ltac step_in H :=
+  match type of H with
+  | ROk _ = _ => fail 1
+  | RErr _ _ = _ => fail 1
+  | RPanic _ = _ => fail 1
+  | Some _ = _ => fail 1
+  | None = _ => fail 1
+  | parse_loop _ _ _ _ = _ => fail 1
+  | rbind ?r _ = _ => let E := fresh "E" in destruct r eqn:E; cbn [rbind] in H
+  | (let '(_, _) := ?p in _) = _ => let E := fresh "E" in destruct p eqn:E
+  | (if ?b then _ else _) = _ => let E := fresh "E" in destruct b eqn:E
+  | match ?x with _ => _ end = _ => let E := fresh "E" in destruct x eqn:E
+  end.
+
+
+Ltac kill_err :=
+  match goal with
+  | E : state_arg _ _ = RErr _ _ |- _ => exfalso; eapply state_arg_not_err, E
+  | E : resolve_pending_ignore _ _ = RErr _ _ |- _ => exfalso; eapply resolve_pending_ignore_not_err, E
+  | E : expect _ _ = RErr _ _ |- _ => exfalso; eapply expect_not_err, E
+  | E : is_new_arg _ _ _ = RErr _ _ |- _ => exfalso; eapply is_new_arg_not_err, E
+  | E : parse_long_arg _ _ _ _ _ _ _ _ = RErr ?e _, Hk : unknown_kind (e_kind ?e) |- _ =>
+      exfalso; eapply reaction_not_unknown; [eapply parse_long_arg_err, E|exact Hk]
+  | E : parse_short_arg _ _ _ _ _ _ = RErr ?e _, Hk : unknown_kind (e_kind ?e) |- _ =>
+      exfalso; eapply reaction_not_unknown; [eapply parse_short_arg_err, E|exact Hk]
+  | E : resolve_pending _ _ = RErr ?e _, Hk : unknown_kind (e_kind ?e) |- _ =>
+      exfalso; eapply reaction_not_unknown; [eapply resolve_pending_err, E|exact Hk]
+  end.
+
+Ltac use_IH IH H Hk :=
+  let t := fresh "t" in let Ht := fresh "Ht" in let Hc := fresh "Hc" in
+  destruct (IH _ _ _ _ H Hk) as [t [Ht Hc]]; exists t; split; [right; exact Ht|exact Hc].
+
+Ltac other_kind H Hk :=
+  injection H as <- _; exfalso; cbn [e_kind mkerr] in Hk; destruct Hk as [Hk|Hk]; discriminate Hk.
+
+Ltac leaf IH H Hk :=
+  first
+  [ discriminate H
+  | use_IH IH H Hk
+  | other_kind H Hk
+  | (injection H as <- _;
+     match goal with
+     | E : parse_long_arg _ ?f ?ok ?v _ _ _ _ = ROk (_, PRNoMatchingArg _, _), T : to_long ?tok = Some (?f, ?ok, ?v) |- _ =>
+         let Hc := fresh "Hc" in
+         apply parse_long_no_match_sound in E; destruct E as [-> [_ Hc]]; exists tok; split; [left; reflexivity|];
+         eapply UCLong; [exact T|reflexivity|exact Hc]
+     | E : parse_short_arg _ ?r _ _ _ _ = ROk (_, PRNoMatchingArg _, _), T : to_short ?tok = Some ?r |- _ =>
+         apply parse_short_no_match_sound in E; exists tok; split; [left; reflexivity|];
+         eapply UCShort; [exact T|]; cbn [e_arg mkerr]; exact E
+     end)
+  | (injection H as <- _; kill_err)
+  | (injection H as <- _;
+     match goal with
+     | G : get_pos _ _ = Some ?a, L : a_last ?a && _ = true |- exists t, In t (?tok :: _) /\ _ =>
+         apply andb_true_iff in L; destruct L as [L _]; exists tok; split; [left; reflexivity|];
+         eapply UCLast; [exact G|exact L|reflexivity]
+     end)
+  | (injection H as <- _;
+     match goal with
+     | G : get_pos _ _ = None, X : is_set s_allow_external _ = false |- exists t, In t (?tok :: _) /\ _ =>
+         exists tok; split; [left; reflexivity|]; eapply UCNoPos; [exact G|exact X|reflexivity]
+     end)
+  | (injection H as <- _;
+     match goal with
+     | E : _ = RErr ?e0 _, Hk' : unknown_kind (e_kind ?e0) |- _ =>
+         exfalso; repeat step_in E; try discriminate E; try (injection E as <- _); kill_err
+     end) ].
+
+Theorem parse_loop_unknown_sound c : forall toks ls st e st',
+  parse_loop c toks ls st = RErr e st' -> unknown_kind (e_kind e) ->
+  exists tok, In tok toks /\ unknown_cause c tok e.
+Proof.
+  induction toks as [|tok rest IH]; intros ls st e st' H Hk; [discriminate H|].
+  cbn [parse_loop] in H. cbv zeta in H.
+  match type of H with rbind ?ph _ = _ => destruct ph as [[[early ls1] st1]|e1 s1|p1] eqn:Eph end; cbn [rbind] in H.
+  3:{ discriminate H. }
+  2:{ injection H as <- _. exfalso. repeat step_in Eph; try discriminate Eph.
+      all: try (injection Eph as <- _); try kill_err. }
+  repeat step_in Eph; try discriminate Eph.
+  all: try kill_err.
+  all: injection Eph as <- <- <-; cbv beta iota in H.
+  all: try (leaf IH H Hk).
+  all: repeat step_in H.
+  all: try (leaf IH H Hk).
+Qed.
